@@ -30,12 +30,35 @@ def renumber_state(s):
     return re.sub(r'\(sym (\d+)\)', f, s)
 
 
+def decimal_names(rng, cl, calls):
+    """family: some symbols NAMED like the ids the deserialiser hands out — a symbol number 3000+d is the Python symbol called
+    `str(d)` (harness/py/pyconv.py), as K domain values are (`Symbol(str(value))`) — next to ordinarily named ones"""
+    if rng.random() < 0.6:
+        return cl, calls
+    syms = sorted({c[1] for c in calls if c[0] == 'symbol'})
+    if not syms:
+        return cl, calls
+    ds = list(range(0, 6))
+    rng.shuffle(ds)
+    mp = {s: 3000 + d for s, d in zip(rng.sample(syms, rng.randint(1, min(len(syms), 4))), ds)}
+
+    def go(t):
+        if isinstance(t, tuple):
+            if len(t) == 2 and t[0] in ('sym', 'symbol') and t[1] in mp:
+                return (t[0], mp[t[1]])
+            return tuple(go(x) for x in t)
+        if isinstance(t, list):
+            return [go(x) for x in t]
+        return t
+    return go(cl), go(calls)
+
+
 def run(rep):
     rng = random.Random(rep.seed * 1000003 + 14)
     ok, detail = core.proof_gate(rep, 'Pi2.Props.C14', THEOREMS)
     quick = rep.tier == 'quick'
     N = 300 if quick else 5000
-    hs = [genhist.gen_history(rng, rng.choice((8, 15, 30, 50))) for _ in range(N)]
+    hs = [decimal_names(rng, *genhist.gen_history(rng, rng.choice((8, 15, 30, 50)))) for _ in range(N)]
     lines = ['track ' + genhist.history_to_s(cl, calls) for cl, calls in hs]
     pa = core.py_h(lines)
     la = core.lean_drv(lines)
